@@ -17,14 +17,14 @@
  *   part_super_ata: fundamental supernodes of the Cholesky factor of A'A (definition: units/cholnzcnt_b/h.c).
  * DOMAIN: 1 = square, structurally nonsingular (some row permutation gives a zero-free diagonal; zero diagonal entries allowed)
  *         2 = any pattern (structurally singular, empty rows and columns), also ROWS != CAP
+ * SORTED: 0 = column subscripts in any order (nondeterministic xadj/adjncy), 1 = ascending (built from a nondeterministic 0/1 matrix; cheaper, used for 4x4)
  * ATA:    0 = part_super_ata is checked on the patterns whose column etree has no single-vertex tree after column 0, 1 = on all patterns */
 #define D (CAP > 0 ? CAP : 1)
 #define DR (ROWS > 0 ? ROWS : 1)
 #define DZ (NZ > 0 ? NZ : 1)
 #ifndef CANMASK
-#define CANMASK 0xffff
+#define CANMASK 0xffff            /* which reachability canaries make sense for the shape / number of entries of the run */
 #endif
-#define CANARY(bit, cond, msg) if ((CANMASK >> (bit)) & 1) { if (cond) __CPROVER_assert(0, msg); }
 int_t in_n, in_adjlen, in_xadj[D + 1], in_adjncy[DZ], in_zfdperm[D + 1], in_perm[D], in_invp[D], in_etpar[D];
 int_t g_colcnt_h[D], g_part_h[D], g_part_ata[D], g_nlnz, g_xadj0[D + 1], g_adjncy0[DZ], g_etpar0[D];
 /* SRC/pmemory.c: intMalloc = malloc(n * sizeof(int_t)) / intCalloc = the same, zero-filled; exit(1) on NULL.  All sizes are constants here
@@ -52,6 +52,17 @@ void h_qrnzcnt(void) {
   for (j = 0; j <= D; j++) { in_xadj[j] = nondet_int_t(); in_zfdperm[j] = j; }
   for (p = 0; p < DZ; p++) in_adjncy[p] = nondet_int_t();
   for (j = 0; j < D; j++) { in_perm[j] = j; in_invp[j] = j; in_etpar[j] = nondet_int_t(); }
+#if SORTED                                            /* columns built from a nondeterministic 0/1 matrix: subscripts ascending */
+  { _Bool nd_M[DR][D]; _Bool nondet_bool(void);
+    p = 0;
+    for (c = 0; c < CAP; c++) {
+      in_xadj[c] = p;
+      for (r = 0; r < ROWS; r++) { M[r][c] = nondet_bool(); if (M[r][c]) { __CPROVER_assume(p < NZ); in_adjncy[p] = r; p++; } }
+    }
+    in_xadj[CAP] = p;
+    __CPROVER_assume(p == NZ);
+  }
+#else
   __CPROVER_assume(in_xadj[0] == 0 && in_xadj[CAP] == NZ);
   for (j = 0; j < CAP; j++) __CPROVER_assume(in_xadj[j] <= in_xadj[j + 1] && in_xadj[j + 1] - in_xadj[j] <= ROWS);
   for (p = 0; p < NZ; p++) __CPROVER_assume(0 <= in_adjncy[p] && in_adjncy[p] < ROWS);
@@ -61,6 +72,7 @@ void h_qrnzcnt(void) {
     M[r][c] = 0;
     for (p = 0; p < NZ; p++) if (in_xadj[c] <= p && p < in_xadj[c + 1] && in_adjncy[p] == r) M[r][c] = 1;
   }
+#endif
   zfd = (ROWS == CAP);
 #if ROWS == CAP
   for (c = 0; c < CAP; c++) if (!M[c][c]) zfd = 0;
@@ -123,7 +135,7 @@ void h_qrnzcnt(void) {
   for (j = 0; j < CAP; j++) __CPROVER_assert((g_part_h[j] > 0) == head[j], "part_super_h: heads are column 0, first nonzeros of rows, vertices with >= 2 children");
   /* (b) C05: the predicted column counts dominate the Householder structure; the slot of a block covers each of its columns */
   for (j = 0; j < CAP; j++) __CPROVER_assert(g_colcnt_h[j] >= hc[j], "colcnt_h[j] dominates column j of the Householder matrix");
-  for (j = 0; j < CAP; j++) __CPROVER_assert(!zfd || g_colcnt_h[j] == hc[j], "zero-free diagonal: colcnt_h[j] is the column count of the Householder matrix");
+  for (j = 0; j < CAP; j++) __CPROVER_assert(!zfd || g_colcnt_h[j] <= cc[j], "zero-free diagonal: colcnt_h[j] is at most the column count of the Cholesky factor of A'A");
   for (j = 0; j < CAP; j++) __CPROVER_assert(g_colcnt_h[j] >= 1, "colcnt_h[j] >= 1");
   k = 0;
   for (j = 0; j < CAP; j++) {
@@ -148,20 +160,41 @@ void h_qrnzcnt(void) {
   for (j = 0; j < CAP; j++) __CPROVER_assert(in_perm[j] == j && in_invp[j] == j && g_etpar0[j] == in_etpar[j], "perm, invp, etpar not written");
 
   __CPROVER_assert(0, "canary: qrnzcnt returns");
-#if CAP >= 3
-  CANARY(0, par[0] == 2 && par[1] == 2, "canary: vertex with exactly two children");
-  CANARY(1, g_part_h[0] == CAP, "canary: one H-block");
-  CANARY(2, g_part_h[0] == 1 && g_part_h[1] == 1 && g_part_h[2] == 1, "canary: singleton H-blocks");
+#if CAP >= 3 && ROWS >= 3
   { _Bool forest = 0; for (j = 0; j < CAP - 1; j++) if (par[j] == CAP) forest = 1;
-  CANARY(3, forest, "canary: forest with several roots");
-  CANARY(9, !single && forest, "canary: forest without single-vertex tree after column 0"); }
-  CANARY(4, !M[2][1] && S[2][1], "canary: fill in H");
-  CANARY(5, !M[0][0], "canary: zero diagonal entry");
-  CANARY(6, in_xadj[1] >= 2 && in_adjncy[0] > in_adjncy[1], "canary: unsorted column");
-  CANARY(7, zfd, "canary: zero-free diagonal");
-  CANARY(8, single, "canary: single-vertex tree after column 0");
+#if CANMASK & 1
+  if (par[0] == 2 && par[1] == 2) __CPROVER_assert(0, "canary: vertex with exactly two children");
 #endif
-#if CAP >= 2 && DOMAIN >= 2
-  CANARY(10, hc[1] == 0, "canary: structurally empty column");
+#if CANMASK & 2
+  if (g_part_h[0] == CAP) __CPROVER_assert(0, "canary: one H-block");
+#endif
+#if CANMASK & 4
+  if (g_part_h[0] == 1 && g_part_h[1] == 1 && g_part_h[2] == 1) __CPROVER_assert(0, "canary: singleton H-blocks");
+#endif
+#if CANMASK & 8
+  if (forest) __CPROVER_assert(0, "canary: forest with several roots");
+#endif
+#if CANMASK & 16
+  if (!M[2][1] && S[2][1]) __CPROVER_assert(0, "canary: fill in H");
+#endif
+#if CANMASK & 32
+  if (!M[0][0]) __CPROVER_assert(0, "canary: zero diagonal entry");
+#endif
+#if (CANMASK & 64) && !SORTED
+  if (in_xadj[1] >= 2 && in_adjncy[0] > in_adjncy[1]) __CPROVER_assert(0, "canary: unsorted column");
+#endif
+#if CANMASK & 128
+  if (zfd) __CPROVER_assert(0, "canary: zero-free diagonal");
+#endif
+#if CANMASK & 256
+  if (single) __CPROVER_assert(0, "canary: single-vertex tree after column 0");
+#endif
+#if CANMASK & 512
+  if (!single && forest) __CPROVER_assert(0, "canary: forest without single-vertex tree after column 0");
+#endif
+  }
+#endif
+#if CAP >= 2 && DOMAIN >= 2 && (CANMASK & 1024)
+  if (hc[1] == 0) __CPROVER_assert(0, "canary: structurally empty column");
 #endif
 }
